@@ -59,13 +59,22 @@ var (
 	keyFiles    = []string{"", "rsa", "ec", "missing", "garbage", "rsa2", "ec2"} // rsa2/ec2: valid keys of the same algorithm that belong to no certificate here
 	loadedCerts = []string{"", "rsa", "ec"}
 	loadedKeys  = []string{"", "rsa", "ec", "ed25519", "rsa2", "ec2"}
-	caFiles     = []string{"", "ca", "ca2", "missing", "garbage", "bundle"} // bundle: one file holding ca and ca2
+	caFiles     = []string{"", "ca", "ca2", "missing", "garbage", "bundle", "bigbundle"} // bundle: one file holding ca and ca2; bigbundle: a trust bundle of more than 64 KiB with ca at its end
 	loadedCAs   = []string{"", "ca", "ca2"}
-	pools       = []string{"", "ca", "ca2", "empty"}
+	pools       = []string{"", "ca", "ca2", "empty", "caold"}                  // caold: an authority with the subject of ca and another key (a root that was re-keyed)
 	serverNames = []string{"", "server.test", "other.test", "10.1.2.3", "::1"} // a server name may be an IP literal
 	callbacks   = []string{"", "accept", "reject"}
 	servers     = []string{"good", "rogue", "tls11"}
 )
+
+// fillerNames are the authorities that pad the big trust bundle.
+var fillerNames = func() []string {
+	var out []string
+	for i := 0; i < 160; i++ {
+		out = append(out, fmt.Sprintf("f%03d", i))
+	}
+	return out
+}()
 
 const dialledHost = "server.test" // the host a transport would fill in when no server name is configured
 
@@ -151,7 +160,7 @@ func (c Case) instantiate(m *material) *live {
 	switch c.Pool {
 	case "empty":
 		o.LoadedCAPool = x509.NewCertPool()
-	case "ca", "ca2":
+	case "ca", "ca2", "caold":
 		o.LoadedCAPool = x509.NewCertPool() // a fresh pool every time: TLSClientAuth may add to it
 		o.LoadedCAPool.AddCert(m.cas[c.Pool])
 	}
@@ -229,7 +238,7 @@ func (c Case) expect() expectation {
 
 	// roots
 	pool := []string{}
-	if c.Pool == "ca" || c.Pool == "ca2" {
+	if c.Pool == "ca" || c.Pool == "ca2" || c.Pool == "caold" {
 		pool = []string{c.Pool}
 	}
 	fileRoots := []string{}
@@ -238,6 +247,9 @@ func (c Case) expect() expectation {
 	}
 	if c.CAFile == "bundle" {
 		fileRoots = []string{"ca", "ca2"}
+	}
+	if c.CAFile == "bigbundle" {
+		fileRoots = append(append([]string{}, fillerNames...), "ca")
 	}
 	unreadable := c.CAFile == "missing" || c.CAFile == "garbage"
 	switch {
